@@ -174,6 +174,39 @@ theorem runLoop_consumes_le_two {D : Type} (classify : Int → D → Step) (dl :
       | panic => constructor <;> intro _ _ hh <;> cases hh
       | accept a => constructor <;> intro _ _ hh <;> cases hh; omega
 
+/-- a basic (non-interleaved) request never reaches the `panic` of `ValidateResponseTimestamps`
+    when the receive time handed to the NTP stage is not before the transmit time -/
+theorem ntpStage_basic_no_panic (cfg : Cfg) (prev : Prev) (req : Req) (cTx1 cRx : Int) (p : Payload)
+    (hb : req.interleaved = false) (hle : cTx1 ≤ cRx) : ntpStage cfg prev req cTx1 cRx p ≠ .panic := by
+  unfold ntpStage
+  split
+  · simp
+  split
+  · simp
+  split
+  · simp
+  simp only [hb, Bool.false_and, Bool.false_eq_true, if_false]
+  split
+  · simp
+  split
+  · simp
+  unfold validateTimestamps
+  have : ¬ (sub64 cRx cTx1 < 0) := by rw [sub64_neg_iff]; omega
+  simp only [this, if_false]
+  split
+  · rename_i heq; split at heq <;> cases heq
+  · simp
+  · simp
+
+theorem scionRxTime_within (d : ScionDgram) (cTx1 cRx : Int) (hle : cTx1 ≤ cRx) :
+    cTx1 ≤ scionRxTime d cTx1 cRx ∧ scionRxTime d cTx1 cRx ≤ cRx := by
+  unfold scionRxTime
+  split
+  · split
+    · split <;> omega
+    · omega
+  · omega
+
 theorem classifyIP_accept (cfg : Cfg) (server : Nat) (prev : Prev) (req : Req) (cTx1 cRx : Int)
     (d : IpDgram) (a : Accepted) (h : classifyIP cfg server prev req cTx1 cRx d = .accept a) :
     d.src = server ∧ ntpStage cfg prev req cTx1 cRx d.payload = .accept a := by
@@ -183,10 +216,6 @@ theorem classifyIP_accept (cfg : Cfg) (server : Nat) (prev : Prev) (req : Req) (
   · rename_i hs
     exact ⟨by simpa using hs, h⟩
 
-/-- receive time used for a SCION datagram (the E2E timestamp option overrides the kernel's) -/
-def scionRxTime (d : ScionDgram) (cRx : Int) : Int :=
-  if d.decoded.length ≥ 3 && secondLast d.decoded == some .e2e then d.tsOpt.getD cRx else cRx
-
 theorem classifySCION_accept (cfg : Cfg) (sc : ScionCtx) (prev : Prev) (req : Req) (cTx1 cRx : Int)
     (d : ScionDgram) (a : Accepted) (h : classifySCION cfg sc prev req cTx1 cRx d = .accept a) :
     d.decodeOk = true ∧ 2 ≤ d.decoded.length ∧ lastLayer d.decoded = some .udp ∧
@@ -194,8 +223,8 @@ theorem classifySCION_accept (cfg : Cfg) (sc : ScionCtx) (prev : Prev) (req : Re
     d.srcIA = sc.remoteIA ∧ d.srcHost = sc.remoteHost ∧ d.dstIA = sc.localIA ∧ d.dstHost = sc.localHost ∧
     (∀ au, (d.decoded.length ≥ 3 && secondLast d.decoded == some .e2e) = true → sc.keyAvailable = true →
         d.authOpt = some au → au.spi = spiServer → au.alg = algCMAC → au.macOk = true) ∧
-    ntpStage cfg prev req cTx1 (scionRxTime d cRx) d.payload = .accept a := by
-  unfold classifySCION at h
+    ntpStage cfg prev req cTx1 (scionRxTime d cTx1 cRx) d.payload = .accept a := by
+  unfold classifySCION classifySCIONWith at h
   split at h
   · cases h
   rename_i h1
@@ -227,8 +256,7 @@ theorem classifySCION_accept (cfg : Cfg) (sc : ScionCtx) (prev : Prev) (req : Re
       split at h
       · cases h
       · rename_i hm; simpa using hm
-  · unfold scionRxTime
-    split at h
+  · split at h
     · cases hau : d.authOpt with
       | none => rw [hau] at h; exact h
       | some au =>
